@@ -13,6 +13,7 @@
 //	running   a second start / retry while the first is active       (C16: refused silently, first untouched)
 //	normal    control: a plain run                                   (steps + handlers run, one history file)
 //	bindfail  the socket path cannot be bound                        (run recorded, nothing executed)
+//	retry     (only when named) a failed / stopped run read back from the history store and retried with a new request id (C10)
 //	race      (only when named) the former probe/bind race (F16a): one agent held inside its locked section, a second started meanwhile (C16)
 //
 // default: all.  One JSON object per line, see type Case.  `log` is the ordered list of what the agent did:
@@ -21,6 +22,8 @@ package main
 
 import (
 	"context"
+	"crypto/sha256"
+	"encoding/hex"
 	"errors"
 	"fmt"
 	"io"
@@ -65,25 +68,26 @@ type Obs struct {
 }
 
 type Case struct {
-	K            int      `json:"k"`
-	Class        string   `json:"class"`
-	Sub          string   `json:"sub"`
-	Steps        []StepJ  `json:"steps"`
-	Handlers     []string `json:"handlers"`
-	Dry          bool     `json:"dry"`
-	HasPre       bool     `json:"has_pre"`
-	PreOk        bool     `json:"pre_ok"`
-	Retry        bool     `json:"retry"`         // the observed run is a retry (Options.RetryTarget set)
-	Running      bool     `json:"probe_running"` // another agent of the same DAG file was active when this run started
-	BindOk       bool     `json:"bind_ok"`
-	Obs                   // the observed run (for class running: the SECOND run)
-	First        *Obs     `json:"first,omitempty"`         // class running: the first run, after it finished
-	StatusBefore string   `json:"status_before,omitempty"` // class running: endpoint answer before / after the second attempt
-	StatusAfter  string   `json:"status_after,omitempty"`
-	HistDuring   int      `json:"hist_during"`      // class running: history files while the first was active, after the second attempt
-	BWaited      bool     `json:"b_waited"`         // class race: B did nothing while A was inside its locked section
-	Others       []*Obs   `json:"others,omitempty"` // class race: the runs B and C
-	Infra        string   `json:"infra,omitempty"`  // the driver itself failed (not an observation)
+	K            int       `json:"k"`
+	Class        string    `json:"class"`
+	Sub          string    `json:"sub"`
+	Steps        []StepJ   `json:"steps"`
+	Handlers     []string  `json:"handlers"`
+	Dry          bool      `json:"dry"`
+	HasPre       bool      `json:"has_pre"`
+	PreOk        bool      `json:"pre_ok"`
+	Retry        bool      `json:"retry"`         // the observed run is a retry (Options.RetryTarget set)
+	Running      bool      `json:"probe_running"` // another agent of the same DAG file was active when this run started
+	BindOk       bool      `json:"bind_ok"`
+	Obs                    // the observed run (for class running: the SECOND run)
+	First        *Obs      `json:"first,omitempty"`         // class running: the first run, after it finished
+	StatusBefore string    `json:"status_before,omitempty"` // class running: endpoint answer before / after the second attempt
+	StatusAfter  string    `json:"status_after,omitempty"`
+	HistDuring   int       `json:"hist_during"`         // class running: history files while the first was active, after the second attempt
+	Retry2       *RetryObs `json:"retry_obs,omitempty"` // class retry
+	BWaited      bool      `json:"b_waited"`            // class race: B did nothing while A was inside its locked section
+	Others       []*Obs    `json:"others,omitempty"`    // class race: the runs B and C
+	Infra        string    `json:"infra,omitempty"`     // the driver itself failed (not an observation)
 }
 
 // ---------------------------------------------------------------------------------------------
@@ -178,6 +182,7 @@ func (h *recHist) RemoveOld(f string, d int) error {
 type runCtx struct {
 	rec     *recorder
 	release chan struct{}
+	allOK   bool // this run's scripts succeed whatever the recorded step configuration says (class retry)
 }
 
 var (
@@ -202,6 +207,9 @@ func (e *scripted) Kill(os.Signal) error {
 func (e *scripted) Run() error {
 	if e.rc != nil {
 		e.rc.rec.add("exec:" + e.name)
+	}
+	if e.rc != nil && e.rc.allOK {
+		return nil
 	}
 	switch e.mode {
 	case "fail":
@@ -237,6 +245,8 @@ type spec struct {
 	modes    map[string]string // step / handler name -> mode
 	handlers []string          // exit, success, failure, cancel
 	pre      int               // 0 none, 1 met, 2 unmet
+	params   string            // parameters the DAG is loaded with
+	reqID    string            // request id of the next agent ("" = "req-"+tag)
 }
 
 func (s *spec) yaml(tag string) string {
@@ -355,7 +365,7 @@ func prepareG(s *spec, tag string, opts *agent.Options, gate chan struct{}) (*ru
 	if err := os.WriteFile(s.file(), []byte(s.yaml(tag)), 0o644); err != nil {
 		return nil, err
 	}
-	wf, err := dag.Load("", s.file(), "")
+	wf, err := dag.Load("", s.file(), s.params)
 	if err != nil {
 		return nil, fmt.Errorf("load: %w", err)
 	}
@@ -375,7 +385,11 @@ func prepareG(s *spec, tag string, opts *agent.Options, gate chan struct{}) (*ru
 	r.gate = gate
 	ds := &recStores{DataStores: s.stores(), rec: r.rec, gate: r.gate}
 	cli := &recClient{Client: client.New(ds, "", s.dir, lg), rec: r.rec}
-	r.agt = agent.New("req-"+tag, wf, lg, filepath.Join(s.dir, "logs"), filepath.Join(s.dir, "logs", tag+".log"), cli, ds, opts)
+	reqID := s.reqID
+	if reqID == "" {
+		reqID = "req-" + tag
+	}
+	r.agt = agent.New(reqID, wf, lg, filepath.Join(s.dir, "logs"), filepath.Join(s.dir, "logs", tag+".log"), cli, ds, opts)
 	return r, nil
 }
 
@@ -787,6 +801,141 @@ func race(k int, rng *vh.Rng, work string) Case {
 	return c
 }
 
+// RecordJ is a run as read back from the history store (FindByRequestID, as cmd/retry.go does).
+type RecordJ struct {
+	Found     bool    `json:"found"`
+	File      string  `json:"file"`
+	RequestID string  `json:"reqid"`
+	Status    string  `json:"status"`
+	Params    string  `json:"params"`
+	Nodes     []NodeJ `json:"nodes"`
+	Handlers  []NodeJ `json:"handlers"`
+	Err       string  `json:"err,omitempty"`
+}
+type NodeJ struct {
+	Name   string `json:"name"`
+	Status string `json:"status"`
+}
+
+// RetryObs: class retry.  The first run is under `first`, the observed run (Obs of the case) is the retry.
+type RetryObs struct {
+	FirstReqID  string            `json:"first_reqid"`
+	RetryReqID  string            `json:"retry_reqid"`
+	HistBefore  map[string]string `json:"hist_before"`        // history files before the retry: relative name -> sha256
+	HistAfter   map[string]string `json:"hist_after"`         // ... after the retry
+	FirstRecord RecordJ           `json:"first_record"`       // read back before the retry (the RetryTarget)
+	FirstAgain  RecordJ           `json:"first_record_after"` // the same record read back after the retry
+	RetryRecord RecordJ           `json:"retry_record"`
+	YAMLChanged bool              `json:"yaml_changed"` // the definition on disk got an extra step before the retry
+	ExtraStep   string            `json:"extra_step"`
+}
+
+func hashFiles(root string) map[string]string {
+	out := map[string]string{}
+	for _, f := range listFiles(root) {
+		if b, err := os.ReadFile(filepath.Join(root, f)); err == nil {
+			h := sha256.Sum256(b)
+			out[f] = hex.EncodeToString(h[:])
+		}
+	}
+	return out
+}
+
+func readRecord(s *spec, wf *dag.DAG, reqID string) (RecordJ, *model.Status) {
+	sf, err := s.stores().HistoryStore().FindByRequestID(wf.Location, reqID)
+	if err != nil || sf == nil || sf.Status == nil {
+		e := "not found"
+		if err != nil {
+			e = err.Error()
+		}
+		return RecordJ{Err: e, Nodes: []NodeJ{}, Handlers: []NodeJ{}}, nil
+	}
+	st := sf.Status
+	rel, _ := filepath.Rel(s.dataDir(), sf.File)
+	r := RecordJ{Found: true, File: rel, RequestID: st.RequestID, Status: st.Status.String(), Params: st.Params, Nodes: []NodeJ{}, Handlers: []NodeJ{}}
+	for _, n := range st.Nodes {
+		r.Nodes = append(r.Nodes, NodeJ{n.Step.Name, n.Status.String()})
+	}
+	for _, n := range []*model.Node{st.OnExit, st.OnSuccess, st.OnFailure, st.OnCancel} {
+		if n != nil {
+			r.Handlers = append(r.Handlers, NodeJ{n.Step.Name, n.Status.String()})
+		}
+	}
+	return r, st
+}
+
+// class retry: a run that fails (sub "fail": one step scripted to fail) or is stopped (sub "stop": SIGTERM while a step
+// runs) is read back from the history store and retried by a second agent with Options{RetryTarget} and a new request id;
+// all scripts of the retry succeed.  Before the retry the definition on disk gets an extra step: the retry must run the
+// steps of the RECORD.
+func retryCase(k int, rng *vh.Rng, work, sub string) Case {
+	c := Case{K: k, Class: "retry", Sub: sub, Retry: true}
+	s := &spec{dir: filepath.Join(work, fmt.Sprintf("c%d", k)), name: fmt.Sprintf("d%d", k), modes: map[string]string{}}
+	s.steps, s.handlers = validSteps(rng), someHandlers(rng)
+	s.params = []string{"", "alpha", "alpha beta", "x=1 y=2"}[rng.Below(4)]
+	bad := nm(rng.Below(len(s.steps)))
+	if sub == "stop" {
+		s.modes[bad] = "block"
+	} else {
+		s.modes[bad] = "fail"
+	}
+	fill(&c, s)
+	ro := &RetryObs{FirstReqID: fmt.Sprintf("a%07d-first-%d", k, rng.Below(1000000)), RetryReqID: fmt.Sprintf("b%07d-retry-%d", k, rng.Below(1000000))}
+	c.Retry2 = ro
+	s.reqID = ro.FirstReqID
+	first, err := prepare(s, fmt.Sprintf("t%da", k), &agent.Options{})
+	if err != nil {
+		c.Infra = err.Error()
+		return c
+	}
+	if sub == "stop" {
+		first.held = true
+		go first.run()
+		if !first.waitFor("exec:"+bad, 10*time.Second) {
+			c.Infra = "the first run never reached " + bad
+			close(first.rc.release)
+			<-first.done
+			return c
+		}
+		go func() {
+			defer func() { _ = recover() }()
+			first.agt.Signal(syscall.SIGTERM)
+		}()
+		<-first.done
+	} else {
+		first.run()
+	}
+	c.First = &first.obs
+	ro.HistBefore = hashFiles(s.dataDir())
+	rec, target := readRecord(s, first.wf, ro.FirstReqID)
+	ro.FirstRecord = rec
+	if target == nil {
+		c.Infra = "the first run cannot be read back: " + rec.Err
+		return c
+	}
+	// the definition changes on disk; the retry is loaded from it with the recorded parameters, as cmd/retry.go does
+	s2 := *s
+	s2.modes = map[string]string{}
+	s2.reqID = ro.RetryReqID
+	s2.params = target.Params
+	if rng.Chance(2, 3) {
+		ro.YAMLChanged, ro.ExtraStep = true, "extra"
+		s2.steps = append(append([]StepJ{}, s.steps...), StepJ{Name: "extra", Depends: []string{}})
+	}
+	second, err := prepare(&s2, fmt.Sprintf("t%db", k), &agent.Options{RetryTarget: target})
+	if err != nil {
+		c.Infra = err.Error()
+		return c
+	}
+	second.rc.allOK = true
+	second.run()
+	c.Obs = second.obs
+	ro.HistAfter = hashFiles(s.dataDir())
+	ro.RetryRecord, _ = readRecord(s, second.wf, ro.RetryReqID)
+	ro.FirstAgain, _ = readRecord(s, second.wf, ro.FirstReqID)
+	return c
+}
+
 func main() {
 	out, err := vh.NewOut(os.Args[1])
 	if err != nil {
@@ -827,6 +976,10 @@ func main() {
 	}
 	if on("bindfail") {
 		add(4*mult, func(k int, rng *vh.Rng) Case { return single(k, rng, work, "bindfail") })
+	}
+	if want["retry"] { // only on request (C10)
+		add(10*mult, func(k int, rng *vh.Rng) Case { return retryCase(k, rng, work, "fail") })
+		add(6*mult, func(k int, rng *vh.Rng) Case { return retryCase(k, rng, work, "stop") })
 	}
 	if want["race"] { // only on request (C16)
 		add(4*mult, func(k int, rng *vh.Rng) Case { return race(k, rng, work) })
